@@ -122,7 +122,7 @@ def coqproject():
 
 def theorems_of(prop_file):
     src = strip_comments(open(prop_file).read())
-    return re.findall(r'^\s*Theorem\s+([A-Za-z0-9_\']+)', src, flags=re.M)
+    return re.findall(r'^\s*(?:Theorem|Example)\s+([A-Za-z0-9_\']+)', src, flags=re.M)
 
 
 def parse_make_failure(log):
